@@ -47,4 +47,25 @@ PROPS = {
         assumptions=["per-limb definition evaluated by the harness (missing limb = 0)",
                      "stride padding and guard bands are ASan-poisoned and carry canaries; inputs are byte-snapshotted", ASAN_NOTE],
     ),
+    "C01": dict(
+        runs=std(),
+        rule=("case = one product through one FFT64 path (small single product | svp_prepare+svp_apply_dft+idft | "
+              "...+idft_tmp_a) for (N, operand family, dispatch, res/a limb counts, stride, repetition); distinct by "
+              "descriptor hash; non-trivial when both operands are non-zero, N >= 4 and at least one row is produced"),
+        require={"all": ["products_checked", "exact_regime_products", "budget_regime_products", "frontier_products",
+                         "zero_rows_checked", "oracle_selfcheck_ok"]},
+        assumptions=["exact oracle: schoolbook with 128-bit accumulators, or an oracle-side NTT modulo a 62-bit prime "
+                     "(cross-checked against schoolbook at start-up)",
+                     "budget E evaluated in long double from the actual operands and inflated by 2^-40", ASAN_NOTE],
+    ),
+    "C02": dict(
+        runs=std(),
+        rule=("case = one (N, nrows, ncols, a_size, res_size, a stride, dispatch, operand magnitude class) shape: "
+              "prepare + both apply entry points + inverse DFT; distinct by descriptor hash; non-trivial when "
+              "min(nrows,a_size) >= 1 and min(ncols,res_size) >= 1 (zero-size classes are counted separately)"),
+        require={"all": ["shapes_checked", "columns_checked", "zero_columns_checked", "exact_regime_columns",
+                         "layout:column-major(N<8)", "layout:blocked", "layout:blocked(one block)"]},
+        assumptions=["exact oracle per (row, column) product summed in 128-bit integers; budget = sum of the C01 "
+                     "budgets of the rows + 1/2", "scratch buffers are exactly *_tmp_bytes and NaN-prefilled", ASAN_NOTE],
+    ),
 }
